@@ -71,16 +71,25 @@ func (rm *RegistrationManager) HandleRegUpdates(ctx context.Context, regChan <-c
 	// distribute messages to workers. When workers are unavailable messages are
 	// added into channel buffer until full, then dropped.
 distrLoop:
-	for msg := range regChan {
-		rm.addIngestMessage()
+	for {
+		// Wait for the next message or for the stop request, whichever comes
+		// first: a bare receive would never notice the stop request while the
+		// channel is idle.
 		select {
 		case <-ctx.Done():
 			logger.Infof("closing all ingest threads")
 			break distrLoop
-		case shallowBuffer <- msg:
-		default:
-			logger.Tracef("dropping registration")
-			rm.addDroppedMessage()
+		case msg, ok := <-regChan:
+			if !ok {
+				break distrLoop
+			}
+			rm.addIngestMessage()
+			select {
+			case shallowBuffer <- msg:
+			default:
+				logger.Tracef("dropping registration")
+				rm.addDroppedMessage()
+			}
 		}
 	}
 
